@@ -93,3 +93,12 @@ Print Assumptions C05_regrouping_validity_and.
 Theorem C05_regrouping_same_flattening : forall b (x y z : kexpr), b <> BThen -> flat (EBin b (EBin b x y) z) = flat (EBin b x (EBin b y z)).
 Proof. exact rotation_same_flat. Qed.
 Print Assumptions C05_regrouping_same_flattening.
+
+(* the hypotheses of the theorems on run grouping are satisfiable by two different trees *)
+Theorem C05_run_grouping_hypotheses_satisfiable :
+  let x := EBin BAnd (EAtom [51%N]) (EAtom k501) in
+  let e := EBin BOr (EBin BOr (EAtom [49%N]) (EAtom [50%N])) x in
+  let e' := EBin BOr (EAtom [49%N]) (EBin BOr (EAtom [50%N]) x) in
+  e <> e' /\ flat e = flat e' /\ dom e = true /\ dom e' = true /\ valid e = true /\ valid e' = true.
+Proof. exact run_grouping_hypotheses_met. Qed.
+Print Assumptions C05_run_grouping_hypotheses_satisfiable.
